@@ -23,6 +23,13 @@ CfgNaive2S == [CfgNaive2 EXCEPT !.multi = FALSE]
 CfgNaive1  == [CfgNaive2 EXCEPT !.np = 1, !.cpucap = 1]
 CfgOver    == [CfgNaive2 EXCEPT !.oc = TRUE, !.multi = FALSE, !.ramcap = 3]
 CfgOver1   == [CfgNaive2 EXCEPT !.oc = TRUE, !.np = 1, !.cpucap = 3, !.ramcap = 2]
+\* kills from outside (Sched.tla, KillFromOutside)
+WithKill(c) == [f \in DOMAIN c \cup {"extKill"} |-> IF f = "extKill" THEN TRUE ELSE c[f]]
+CfgNaive2K  == WithKill(CfgNaive2)
+CfgNaive2SK == WithKill(CfgNaive2S)
+CfgOver1K   == WithKill(CfgOver1)
+CfgPr1K     == WithKill(CfgPr1)
+CfgPPK      == WithKill(CfgPP)
 \* every initial state (workload x arrival ticks) of a configuration, printed for the harness, which runs the REAL policy and executor on each of them
 \* (CONSTRAINT: the states are generated and printed, their successors are not)
 DumpInit == PrintT(<<"INIT", Policy, Cfg, MaxTick, wl, arr>>) /\ FALSE
